@@ -1,11 +1,11 @@
 SPECIFICATION Spec
 CONSTANTS
-  Clears = {"scanner", "ins", "outs", "sp", "record", "match", "status", "hdr", "argc", "dash", "ctx", "range"}
+  Clears = {"scanner", "ins", "outs", "sp", "record", "match", "status", "hdr", "argc", "dash", "ctx", "range", "depth"}
   MaxDraws = 4
   JudgeKinds = {"plain", "p_io", "p_func", "gl_dash", "sys"}
   JudgeCfgs = {"c0", "c1", "c2"}
-  McKinds = {"plain", "setglob", "setfs", "csvhdr", "setmodes", "openout", "exit3", "errfunc", "errforin", "cancel", "rand", "srand5", "midfile", "match", "p_io", "p_func", "gl_plain", "gl_dash", "gl_dashvar", "exit_enderr", "exitbegin", "exit_endcancel", "sys", "pipe", "nr_plain", "sr_first", "sr_only", "sr_time", "av_write", "av_del", "rg_close", "rg_eof", "rg_exit", "rg_err", "rg_cancel", "rg_next", "rg_nextfile", "rg_getline"}
-  McCfgs = {"c0", "c1", "c2", "c3", "c4", "c5", "c6", "c7"}
+  McKinds = {"plain", "setglob", "setfs", "csvhdr", "setmodes", "openout", "exit3", "errfunc", "errforin", "cancel", "rand", "srand5", "midfile", "match", "p_io", "p_func", "gl_plain", "gl_dash", "gl_dashvar", "exit_enderr", "exitbegin", "exit_endcancel", "sys", "pipe", "nr_plain", "sr_first", "sr_only", "sr_time", "av_write", "av_del", "rg_close", "rg_eof", "rg_exit", "rg_err", "rg_cancel", "rg_next", "rg_nextfile", "rg_getline", "fmtc", "dp_ok", "dp_err", "dp_exit", "dp_cancel"}
+  McCfgs = {"c0", "c1", "c2", "c3", "c4", "c5", "c6", "c7", "c8", "c9", "c10", "c11"}
   McTags = {1, 2}
 CONSTRAINT Bounded
 INVARIANTS Refines FreshAfterReset OnlyVarsCarry ResetsAreExact
